@@ -877,6 +877,13 @@ void mmd_assign_line_type(mmd_engine * e, token * line) {
 			break;
 	}
 
+	if (((line->type == LINE_LIST_BULLETED) || (line->type == LINE_LIST_ENUMERATED)) &&
+			(line->child != first_child)) {
+		// The marker is indented by up to three spaces -- these are not part
+		// of the item's text
+		token_remove_first_child(line);
+	}
+
 	if ((line->type == LINE_PLAIN) &&
 			!(e->extensions & EXT_COMPATIBILITY)) {
 		// Check if this is a potential table line
